@@ -808,6 +808,11 @@ class HeapExec(DynExec):
         """all(...) / any(...) over a generator expression: an unknown boolean (over-approximation; the element
         expressions of the generator are assumed pure - they are tests on tokens)"""
         if isinstance(gen, Opaque) and gen.name == 'genexp':
+            if getattr(getattr(self, 'top_contract', None), 'shape_case', False):
+                # explicit node shapes: the elements are known, the generator is evaluated element by element
+                r = self._allany_concrete(is_all, gen.data[0], st)
+                if r is not None:
+                    return r
             r = None if is_all else self._any_over_slice(gen.data[0], st)
             if r is not None:
                 return r
